@@ -83,6 +83,10 @@ func (e repl) RunUnit(seed uint64, tier string, unit int, exec func(plan any) *c
 	if r.Chance(1, 12) {
 		n = 21 + r.Intn(40) // long programs, dense in block scopes: local slot numbers reach the dozens
 	}
+	veryLong := r.Chance(1, 90)
+	if veryLong {
+		n = 220 + r.Intn(200) // ... and the hundreds
+	}
 	stmts := GenStatements(r.Fork(), n, true)
 	if len(stmts) > 4 && r.Chance(1, 10) {
 		// one statement that fails at run time, somewhere after the first few
@@ -93,22 +97,23 @@ func (e repl) RunUnit(seed uint64, tier string, unit int, exec func(plan any) *c
 	names := stmtNames(stmts)
 	total := len(stmts)
 	optOff := r.Chance(1, 4)
-	mk := func(mask uint64, yieldMask uint64) *RPlan {
+	mk := func(cutAt func(i int) bool, yieldMask uint64) *RPlan {
 		p := &RPlan{Seed: core.Mix(seed, uint64(unit)), Stmts: stmts, Names: names, OptimizeOff: optOff}
 		for i := 0; i < total-1; i++ {
-			if mask>>uint(i)&1 == 1 {
+			if cutAt(i) {
 				p.Cuts = append(p.Cuts, i)
 			}
 		}
 		p.Cuts = append(p.Cuts, total-1)
 		for i := range p.Cuts {
-			p.AtYield = append(p.AtYield, yieldMask>>uint(i)&1 == 1)
+			p.AtYield = append(p.AtYield, yieldMask>>uint(i%64)&1 == 1)
 		}
 		return p
 	}
+	bits := func(mask uint64) func(int) bool { return func(i int) bool { return i < 64 && mask>>uint(i)&1 == 1 } }
 	if total-1 <= 6 {
 		for mask := uint64(0); mask < 1<<uint(total-1); mask++ {
-			q := mk(mask, r.Uint64())
+			q := mk(bits(mask), r.Uint64())
 			q.Enumerated = true
 			exec(q)
 		}
@@ -118,10 +123,21 @@ func (e repl) RunUnit(seed uint64, tier string, unit int, exec func(plan any) *c
 	if tier == "thorough" {
 		k = 40
 	}
-	exec(mk(1<<uint(total-1)-1, r.Uint64())) // one statement per message
-	exec(mk(1<<uint(total-1)-1, 0))
+	if veryLong {
+		k = 4
+	}
+	all := func(int) bool { return true }
+	exec(mk(all, r.Uint64())) // one statement per message
+	exec(mk(all, 0))
 	for i := 0; i < k; i++ {
-		exec(mk(r.Uint64(), r.Uint64()))
+		if total <= 64 {
+			exec(mk(bits(r.Uint64()), r.Uint64()))
+			continue
+		}
+		// long programs: every boundary is a cut with a density drawn per schedule
+		den := core.Pick(r, []int{2, 2, 8, 32, 100})
+		f := r.Fork()
+		exec(mk(func(int) bool { return f.Intn(den) == 0 }, r.Uint64()))
 	}
 }
 
